@@ -24,7 +24,7 @@ use vx_ref::pdu as rp;
 use vx_ref::pdu::{RAssocHead, RPcAc, RPcRq, RPdu, RPdv, RUserItem};
 use vx_ul::*;
 
-const MAXLEN: u32 = 16_384;
+const MAXLEN: u32 = 131_072;
 const ABSTRACT: &str = "1.2.840.10008.1.1";
 const IMPLICIT: &str = "1.2.840.10008.1.2";
 
@@ -256,6 +256,35 @@ fn observe(entry: Entry, stream: &[u8], segs: &[usize], pend: &[usize], want: us
     }
 }
 
+fn short_hex(b: &[u8]) -> String {
+    if b.len() <= 320 {
+        rp::hex(b)
+    } else {
+        format!("{}...({} bytes)", rp::hex(&b[..64]), b.len())
+    }
+}
+
+fn short_segs(s: &[usize]) -> String {
+    if s.len() <= 12 {
+        format!("{s:?}")
+    } else {
+        format!("{:?}...({} segments)", &s[..8], s.len())
+    }
+}
+
+/// a P-DATA PDU of `total` bytes on the wire (header included) and the expected value
+fn big_pdata(total: usize) -> (Vec<u8>, Pdu) {
+    let data: Vec<u8> = (0..total - 12).map(|i| (i % 251) as u8).collect();
+    let bytes = rp::encode(&RPdu::PData(vec![RPdv::new(1, false, true, data.clone())])).unwrap();
+    assert_eq!(bytes.len(), total);
+    (bytes, Pdu::PData { data: vec![PDataValue { presentation_context_id: 1, value_type: PDataValueType::Data, is_last: true, data }] })
+}
+
+const BIG_SIZES: [usize; 9] = [1023, 1024, 1025, 4096, 8191, 8192, 8193, 16384, 70000];
+/// sequence patterns of the large-PDU family: B = big P-DATA, b = P-DATA of 1024 bytes,
+/// d = small P-DATA, r = A-RELEASE-RQ, a = A-ABORT
+const BIG_PATTERNS: [&str; 6] = ["Br", "dB", "BB", "dBa", "Brb", "rBd"];
+
 struct Shared {
     states: Mutex<HashSet<(u8, u32, u32, u32)>>,
 }
@@ -269,7 +298,7 @@ fn one_run(l: &mut Local, sh_states: &mut HashSet<(u8, u32, u32, u32)>, entry: E
     l.eval();
     let r = guard(|| observe(entry, stream, segs, pend, expected.len()));
     let class = |effect: &str| json!({"entry": format!("{entry:?}"), "effect": effect, "pdus": expected.len(), "pendings": pend.len()});
-    let detail = |m: String| json!({"sequence": seq_name, "stream": rp::hex(stream), "segments": segs, "pending_before_delivery": pend, "message": m});
+    let detail = |m: String| json!({"sequence": seq_name, "stream": short_hex(stream), "segments": short_segs(segs), "pending_before_delivery": pend, "message": m});
     match r {
         Err(p) => {
             l.outcome("panic");
@@ -312,7 +341,7 @@ fn one_run(l: &mut Local, sh_states: &mut HashSet<(u8, u32, u32, u32)>, entry: E
                 }
             }
             match verdict {
-                Ok(()) => l.outcome_with(&format!("ok-{entry:?}{}", if pend.is_empty() { "" } else { "-with-pending" }), || json!({"case": case_id, "stream": rp::hex(stream), "segments": segs, "pending_before_delivery": pend})),
+                Ok(()) => l.outcome_with(&format!("ok-{entry:?}{}", if pend.is_empty() { "" } else { "-with-pending" }), || json!({"case": case_id, "stream": short_hex(stream), "segments": short_segs(segs), "pending_before_delivery": pend})),
                 Err((effect, m)) => {
                     l.outcome(effect);
                     l.fail(&case_id, class(effect), detail(m));
@@ -327,7 +356,7 @@ fn main() {
     let cuts = check.pick(2usize, 3);
     let quick = check.quick();
     check.set_rule(&format!(
-        "read_pdu_from_wire / read_pdu_from_wire_async: all 584 sequences of 1-3 PDUs over {{AC, RJ, P-DATA 1 PDV, P-DATA 2 PDVs, RELEASE-RQ, RELEASE-RP, ABORT, unknown type}} x every segmentation with <= {cuts} cuts (streams longer than 128 bytes: <= 2; quick tier, streams longer than 64 bytes: every single cut and every pair of cuts at boundary-1/boundary/boundary+1/header ends), the all-1-byte segmentation, full coalescing; async: Pending before <= 2 of the first 6 deliveries (segmentations with <= 2 cuts and the bytewise one). receive() of the 4 association types (hook 4.3 constructors): sequences of <= 2 PDUs after the establishment PDU, cuts chosen from the positions boundary-1/boundary/boundary+1 of every PDU and the 6-byte header ends (<= {cuts} cuts), bytewise; async Pending before <= 1 delivery. A case is (entry point, sequence, segmentation, pending set); non-trivial = distinct case reaching the receive loop"
+        "read_pdu_from_wire / read_pdu_from_wire_async: all 584 sequences of 1-3 PDUs over {{AC, RJ, P-DATA 1 PDV, P-DATA 2 PDVs, RELEASE-RQ, RELEASE-RP, ABORT, unknown type}} x every segmentation with <= {cuts} cuts (streams longer than 128 bytes: <= 2; quick tier, streams longer than 64 bytes: every single cut and every pair of cuts at boundary-1/boundary/boundary+1/header ends), the all-1-byte segmentation, full coalescing; async: Pending before <= 2 of the first 6 deliveries (segmentations with <= 2 cuts and the bytewise one). receive() of the 4 association types (hook 4.3 constructors): sequences of <= 2 PDUs after the establishment PDU, cuts chosen from the positions boundary-1/boundary/boundary+1 of every PDU and the 6-byte header ends (<= {cuts} cuts), bytewise; async Pending before <= 1 delivery. Large-PDU family (all 6 entry points): 6 sequence patterns of 2-3 PDUs mixing small PDUs with a P-DATA PDU of total size in {{1023,1024,1025,4096,8191,8192,8193,16384,70000}}, delivered fully coalesced, with one cut at every position around a PDU boundary / multiple of 1024 (up to 17 KiB) / multiple of 8192, byte-wise for sizes <= 1025; async Pending before the first or second delivery. A case is (entry point, sequence, segmentation, pending set); non-trivial = distinct case reaching the receive loop"
     ));
     check.assume("vx-ref PS3.8 encoder builds the streams; expected dicom-rs PDU values are written by hand per alphabet symbol");
     check.assume("association objects are built through the verif-hooks generic-transport constructors; ScriptRead/ScriptAsyncRead deliver exactly the stated segments");
@@ -434,6 +463,94 @@ fn main() {
                 }
             } else {
                 one_run(l, &mut states, entry, &seq_name, &expected, &stream, segs, name, &[]);
+                runs += 1;
+            }
+        }
+        l.nontrivial_distinct_by_construction(runs);
+        traces.fetch_add(runs, std::sync::atomic::Ordering::Relaxed);
+        sh.states.lock().unwrap().extend(states);
+    });
+    // large-PDU family: buffering effects (one transport read holding the end of a PDU and the start of
+    // the next; PDUs larger than the receivers' internal 8 KiB reads)
+    let mut big_jobs: Vec<(Entry, usize, usize)> = vec![];
+    for e in [Entry::WireSync, Entry::WireAsync, Entry::ClientSync, Entry::ServerSync, Entry::ClientAsync, Entry::ServerAsync] {
+        for si in 0..BIG_SIZES.len() {
+            for pi in 0..BIG_PATTERNS.len() {
+                big_jobs.push((e, si, pi));
+            }
+        }
+    }
+    check.extra("large_pdu_sequences", json!(big_jobs.len()));
+    check.par_range(big_jobs.len() as u64, |l, i| {
+        let (entry, si, pi) = big_jobs[i as usize];
+        let size = BIG_SIZES[si];
+        let (big_bytes, big_pdu) = big_pdata(size);
+        let (b1k_bytes, b1k_pdu) = big_pdata(1024);
+        let sym = |n: &str| alpha.iter().position(|s| s.name == n).unwrap();
+        let mut stream = entry.prefix();
+        let mut boundaries = vec![];
+        if !stream.is_empty() {
+            boundaries.push(stream.len());
+        }
+        let mut expected: Vec<&Pdu> = vec![];
+        for ch in BIG_PATTERNS[pi].chars() {
+            match ch {
+                'B' => {
+                    stream.extend_from_slice(&big_bytes);
+                    expected.push(&big_pdu);
+                }
+                'b' => {
+                    stream.extend_from_slice(&b1k_bytes);
+                    expected.push(&b1k_pdu);
+                }
+                c => {
+                    let a = sym(match c {
+                        'd' => "D1",
+                        'r' => "RRQ",
+                        _ => "AB",
+                    });
+                    stream.extend_from_slice(&enc[a]);
+                    expected.push(&alpha[a].d);
+                }
+            }
+            boundaries.push(stream.len());
+        }
+        let len = stream.len();
+        let seq_name = format!("big{size}-{}", BIG_PATTERNS[pi]);
+        // interesting single cuts: around PDU boundaries, around multiples of 1024 (up to 17 KiB) and of 8192
+        let mut pos: Vec<usize> = vec![1, 6];
+        for &b in &boundaries {
+            pos.extend([b.saturating_sub(1), b, b + 1, b + 6]);
+        }
+        let mut k = 1024;
+        while k <= len.min(17 * 1024) {
+            pos.extend([k - 1, k, k + 1]);
+            k += 1024;
+        }
+        let mut k = 8192;
+        while k <= len {
+            pos.extend([k - 1, k, k + 1]);
+            k += 8192;
+        }
+        pos.retain(|&p| p > 0 && p < len);
+        pos.sort();
+        pos.dedup();
+        let mut segms: Vec<(Vec<usize>, String)> = vec![(vec![len], "coalesced".into())];
+        for p in pos {
+            segms.push((vec![p, len - p], format!("cut{p}")));
+        }
+        if size <= 1025 {
+            segms.push((vec![1; len], "bytewise".into()));
+        }
+        let mut states = HashSet::new();
+        let mut runs = 0u64;
+        for (segs, name) in &segms {
+            let pend_sets: Vec<Vec<usize>> = if entry.is_async() && name != "bytewise" { vec![vec![], vec![0], vec![1]] } else { vec![vec![]] };
+            for pend in pend_sets {
+                if pend.first().is_some_and(|&p| p >= segs.len()) {
+                    continue;
+                }
+                one_run(l, &mut states, entry, &seq_name, &expected, &stream, segs, name, &pend);
                 runs += 1;
             }
         }
